@@ -29,6 +29,9 @@ TRUSTED = [
     "the tracing wrappers in harness/prop_C08.py (module attributes replaced at run time; frames identified with "
     "sys._getframe) and the tree reconstruction",
     "CPython's recursion limit as the stand-in for 'exhausting the interpreter stack' (default limit, 1000 frames)",
+    "w02's reduced parser model coq/Model/Parser.v (imported by Model/CycleParser.v) for the termination theorems; its "
+    "predicted nesting is compared with the observed nesting on the enumerated reference graphs",
+    "the registration contract of C08_all_present is a hypothesis about the parser body, evaluated on every trace",
 ]
 
 def src_root() -> str:
@@ -714,6 +717,25 @@ def depth_cases(thorough: bool) -> list[dict]:
     return out
 
 
+def mask_case(k: int, mask: int, md: int) -> dict:
+    """reference graph number `mask` over k named object schemas (Model/CycleParser.gspec): bit i*k+j = schema i has
+    a property p<j> that is a $ref to schema j"""
+    names = [chr(65 + i) for i in range(k)]
+    return {"kind": "refgraph", "max_depth": md, "op": None, "mask": [k, mask],
+            "schemas": {names[i]: {"type": "object",
+                                   "properties": {"p" + chr(97 + j): R(names[j]) for j in range(k) if (mask >> (i * k + j)) & 1}}
+                        for i in range(k)}}
+
+
+def refgraph_cases(rng, thorough: bool) -> list[dict]:
+    allm = [(k, m) for k in (1, 2, 3) for m in range(2 ** (k * k))]
+    lims = [1, 2, 3, 4, 5, 20, 150]
+    if thorough:
+        return [mask_case(k, m, md) for (k, m) in allm for md in (1, 3, 4, 150)]
+    picked = [(3, 484, 4), (3, 484, 150), (3, 106, 3)] + [(k, m, rng.choice(lims)) for (k, m) in rng.sample(allm, 60)]
+    return [mask_case(k, m, md) for (k, m, md) in picked]
+
+
 def malformed(rng) -> list[dict]:
     """deliberately odd documents: dangling refs, malformed refs, null nodes, non-object shapes"""
     out = []
@@ -768,7 +790,7 @@ def main(chk, replay: dict | None = None) -> int:
         inputs += rng.sample(enum_self_multi(), 40) + enum_small(1) + rng.sample(enum_small(2), 250)
         inputs += rng.sample(enum_three(rng, 1), 150)
         inputs += [random_graph(rng) for _ in range(150)]
-    inputs += depth_cases(chk.thorough) + malformed(rng)
+    inputs += depth_cases(chk.thorough) + malformed(rng) + refgraph_cases(rng, chk.thorough)
     t0 = time.time()
     results = run_workers(inputs)
     chk.say(f"[C08] implementation runs: {len(inputs)} documents in {time.time() - t0:.1f}s")
@@ -833,6 +855,21 @@ def main(chk, replay: dict | None = None) -> int:
                             (4, "state_dropped_elsewhere"), (5, "registration_contract"))}
     for c in cases:
         del c["_rb"]
+    # second relation: nesting predicted by the fuel-based parser model = nesting observed, on the enumerated graphs
+    ng = [c for c in cases if c["input"].get("mask") and not c["obs"]["error"]]
+    if chk.model_ok and ng:
+        ncodes = chk.coq_eval("From PG Require Import Lib.Strs Corr.C08.", "nat * N * N * nat",
+                              [f"({c['input']['mask'][0]}%nat, {c['input']['mask'][1]}, {c['input']['max_depth']}, "
+                               f"{c['obs']['max_nest']}%nat)" for c in ng], "run_nest", shard=400, tag="nest")
+        bad = [c for c, v in zip(ng, ncodes or []) if v]
+        chk.cov["input_distribution"]["nesting_relation"] = {"compared": len(ng), "mismatches": len(bad),
+                                                             "max_nesting_seen": max(c["obs"]["max_nest"] for c in ng)}
+        if ncodes is not None and bad:
+            first = bad[0]
+            chk.broken.append({"kind": "correspondence", "name": "Corr.C08.run_nest: needed fuel (Model/Parser) = max nesting observed",
+                               "mismatches": len(bad), "first": {"input": first["input"], "obs": first["obs"]}})
+            chk.say(f"[C08] nesting relation broken on {len(bad)} graph(s); first: {json.dumps(first['input'])[:300]} "
+                    f"observed max nesting {first['obs']['max_nest']}")
     chk.decide(cases, codes, {1: "F08a", 2: "F08b", 5: "F08e"},
                "Corr.C08.run: Coq trace of the rebuilt call trees = tracker snapshots recorded at every enter/exit")
     return chk.finish(TRUSTED,
